@@ -190,19 +190,32 @@ func c08Input(n int) []string {
 	return ls
 }
 
+// c08Reference: the fault-free output, computed WITHOUT the stream code: the text is cut into lines here, every line
+// is redacted on its own, and a line beyond the reader's limit ends the output (everything before it stays).
 func c08Reference(text string) (string, []string) {
-	var out bytes.Buffer
 	Flags{}.Apply()
-	// an error (a delivered garbage line longer than the reader's limit) still leaves the lines before it
-	_ = ProcessMongoLogFileFromReader(strings.NewReader(text), &out, nil)
-	s := out.String()
+	var sb strings.Builder
 	var lines []string
-	for _, l := range strings.SplitAfter(s, "\n") {
-		if l != "" {
-			lines = append(lines, l)
+	for _, l := range strings.Split(text, "\n") {
+		l = strings.TrimSuffix(l, "\r")
+		if len(l) >= 64*1024 {
+			break
+		}
+		if o, ok, pv := redactLine(l); pv == nil && ok {
+			lines = append(lines, o+"\n")
+			sb.WriteString(o + "\n")
 		}
 	}
-	return s, lines
+	return sb.String(), lines
+}
+
+// c08StreamFaultFree: what the stream code itself writes for the text when nothing fails (an over-long line makes it
+// return an error; the lines before that line must have been written all the same).
+func c08StreamFaultFree(text string) string {
+	var out bytes.Buffer
+	Flags{}.Apply()
+	_ = ProcessMongoLogFileFromReader(strings.NewReader(text), &out, nil)
+	return out.String()
 }
 
 // wholeLinePrefix: is got the concatenation of the first m reference lines for some m?
@@ -241,7 +254,9 @@ func c08Run(c *Ctx) {
 	// sizes 6 and 40: ordinary lines; -1 / -2: six lines with a 70 000- / 200 000-byte line in fourth position (longer
 	// than the reader's line limit: the run must fail anyway, and a Read that fails INSIDE that line must not turn the
 	// failure into success)
-	sizes := []int{6, 40, -1, -2}
+	// size 1500: far more output than any buffer a writer might put in front of the destination (about 300 KB) before the
+	// fault arrives; sparser fault positions
+	sizes := []int{6, 40, -1, -2, 1500}
 	for _, nl := range sizes {
 		lines := c08Input(nl)
 		if nl < 0 {
@@ -259,6 +274,11 @@ func c08Run(c *Ctx) {
 				c.HarnessError("C08: empty reference output")
 				return
 			}
+			if got := c08StreamFaultFree(text); got != refOut {
+				m, _ := wholeLinePrefix(got, refLines)
+				c.Violate("no-fault:output-is-not-the-lines-before-the-failure", fmt.Sprintf("%d-line input (final newline %v) without any injected fault: the stream code wrote %d bytes, the lines redacted one by one (up to a line beyond the reader's limit, if any) are %d bytes; the first %d lines agree", nl, final, len(got), len(refOut), m), int64(m),
+					map[string]any{"kind": "c08-no-fault", "lines": nl, "final_newline": final}, nil)
+			}
 			// ---------------- reader faults
 			chunks := []int{1, 7, 512, 4096}
 			if nl < 0 {
@@ -272,6 +292,9 @@ func c08Run(c *Ctx) {
 				if !c.Thorough() {
 					chunks = []int{512, 4096}
 				}
+			}
+			if nl >= 1000 {
+				chunks = []int{65536, 4096}
 			}
 			for _, chunk := range chunks {
 				nreads := (len(text)+chunk-1)/chunk + 1
@@ -322,11 +345,17 @@ func c08Run(c *Ctx) {
 			// ---------------- writer faults: explorer over (k-th write outcome), deviation bound 1 / 2
 			nw := len(refLines)
 			for k := 0; k < nw; k++ {
+				if nl >= 1000 && k%97 != 0 && k != nw-1 {
+					continue
+				}
 				caseNo++
 				if !c.Mine(caseNo) {
 					continue
 				}
 				for mode := 0; mode < 3+len(c08WriteErrors)-1; mode++ {
+					if nl >= 1000 && mode >= 3 {
+						break
+					}
 					for later := 0; later < 2; later++ {
 						for _, ch := range []string{"reader", "file", "gzip"} {
 							var rd io.ReadCloser = io.NopCloser(strings.NewReader(text))
@@ -373,6 +402,9 @@ func c08Run(c *Ctx) {
 				stride := 1
 				if (nl > 6 || nl < 0) && !c.Thorough() {
 					stride = 7
+				}
+				if nl >= 1000 {
+					stride = 997
 				}
 				for off := 0; off < len(zb); off += stride {
 					caseNo++
@@ -672,7 +704,7 @@ func c08CLI(c *Ctx) {
 func init() {
 	register(&PropDef{
 		ID: "C08", Level: "fault_enumeration",
-		Rule:        "inputs of 6 and 40 lines (command lines of three kinds, other components, non-JSON text, blanks; with and without final newline) on the real stream code; reader faults: chunk sizes {1,7,512,4096} x EVERY Read call index failing, cleanly or together with that call's data (at one chunk size with each of 12 error values: a plain one, io.ErrUnexpectedEOF, EIO, ECONNRESET, EAGAIN, EINTR, io.ErrClosedPipe, os.ErrClosed, io.ErrNoProgress, context.Canceled, a deadline, an error wrapping io.EOF), through the reader and the file entry points; writer faults: EVERY Write call index x {error - with each of 13 error values: a plain one, EPIPE bare and as os.File wraps it, ENOSPC, EIO, EAGAIN, EINTR, io.ErrClosedPipe, os.ErrClosed, io.EOF, io.ErrShortWrite, context.Canceled, os.ErrDeadlineExceeded -, one byte short, half accepted} x {later writes succeed, fail} through reader, file and gzip entry points; gzip: the compressed stream cut at EVERY byte offset, each byte XOR 0xFF and (6-line input / thorough) each single bit flipped, judged against an independent compress/gzip reading of the same bytes; CLI: stdout and --outputFile on /dev/full for file / gzip / stdin input, stdout a pipe closed by its reader, damaged .gz files at every 16th (thorough: every) offset. Oracle: a surfaced fault => error return / non-zero exit; bytes accepted by the writer are a byte prefix of the fault-free output; after a read fault the output is a whole-line prefix of the fault-free lines (for damaged gzip: of the redaction of the complete lines actually delivered). distinct = distinct (input, fault) pairs" + "; inputs holding a 70 000- / 200 000-byte line (beyond the line limit) under the same Read-index and gzip-cut enumeration; /dev/full on stdout / --outputFile at 1, 50, 400, 2 000, 6 000 (thorough 20 000) input lines from file and stdin",
+		Rule:        "inputs of 6, 40 and 1 500 lines (the last with sparser fault positions: its output is far larger than any buffer in front of the destination) (command lines of three kinds, other components, non-JSON text, blanks; with and without final newline) on the real stream code; reader faults: chunk sizes {1,7,512,4096} x EVERY Read call index failing, cleanly or together with that call's data (at one chunk size with each of 12 error values: a plain one, io.ErrUnexpectedEOF, EIO, ECONNRESET, EAGAIN, EINTR, io.ErrClosedPipe, os.ErrClosed, io.ErrNoProgress, context.Canceled, a deadline, an error wrapping io.EOF), through the reader and the file entry points; writer faults: EVERY Write call index x {error - with each of 13 error values: a plain one, EPIPE bare and as os.File wraps it, ENOSPC, EIO, EAGAIN, EINTR, io.ErrClosedPipe, os.ErrClosed, io.EOF, io.ErrShortWrite, context.Canceled, os.ErrDeadlineExceeded -, one byte short, half accepted} x {later writes succeed, fail} through reader, file and gzip entry points; gzip: the compressed stream cut at EVERY byte offset, each byte XOR 0xFF and (6-line input / thorough) each single bit flipped, judged against an independent compress/gzip reading of the same bytes; CLI: stdout and --outputFile on /dev/full for file / gzip / stdin input, stdout a pipe closed by its reader, damaged .gz files at every 16th (thorough: every) offset. Oracle: a surfaced fault => error return / non-zero exit; bytes accepted by the writer are a byte prefix of the fault-free output; after a read fault the output is a whole-line prefix of the fault-free lines (for damaged gzip: of the redaction of the complete lines actually delivered). distinct = distinct (input, fault) pairs" + "; inputs holding a 70 000- / 200 000-byte line (beyond the line limit) under the same Read-index and gzip-cut enumeration; /dev/full on stdout / --outputFile at 1, 50, 400, 2 000, 6 000 (thorough 20 000) input lines from file and stdin",
 		Assumptions: []string{"for flipped gzip bytes 'fault-free' is read relative to the bytes the decompressor delivered before failing (DESIGN.md 3.0 / section 5)", "a damaged stream that an independent reader still accepts must be processed completely or rejected"},
 		Run:         c08Run,
 	})
